@@ -362,6 +362,8 @@ pub fn run_resp(case: &RespCase) -> CaseOut {
     );
     let mut defined: BTreeMap<(u8, u8), (AV, bool)> = BTreeMap::new();
     let mut bad: Option<String> = None;
+    // attributes whose value no attribute object can hold (more than 255 octets)
+    let mut unencodable: std::collections::BTreeSet<(u8, u8)> = Default::default();
     let dense: Vec<(u8, u8, AV, bool)> = match case.dense {
         Some((s, n)) => (1..=n.min(253))
             .map(|v| (s, v, AV::UInt(v as u32), v % 3 == 0))
@@ -371,7 +373,7 @@ pub fn run_resp(case: &RespCase) -> CaseOut {
     handle.transaction(|db| {
         for (s, var, val, writable) in dense.iter().chain(case.attrs.iter()) {
             let set = set_of(*s);
-            if defined.contains_key(&(set, *var)) {
+            if defined.contains_key(&(set, *var)) || unencodable.contains(&(set, *var)) {
                 continue;
             }
             // an attribute larger than a whole fragment can never be reported; defining one is outside the domain
@@ -391,6 +393,9 @@ pub fn run_resp(case: &RespCase) -> CaseOut {
                 prop,
                 OwnedAttribute::new(AttrSet::new(set), *var, to_owned_value(val)),
             ) {
+                Ok(()) if vlen > 255 => {
+                    unencodable.insert((set, *var));
+                }
                 Ok(()) => {
                     defined.insert((set, *var), (canon(val), *writable));
                 }
@@ -503,7 +508,14 @@ pub fn run_resp(case: &RespCase) -> CaseOut {
     // a variation list larger than a whole fragment can never be reported (outside the domain): make room for the longest
     let longest_list = sets
         .iter()
-        .map(|s| 7 + 2 * defined.keys().filter(|k| k.0 == *s).count())
+        .map(|s| {
+            7 + 2
+                * defined
+                    .keys()
+                    .chain(unencodable.iter())
+                    .filter(|k| k.0 == *s)
+                    .count()
+        })
         .max()
         .unwrap_or(0);
     let objsize = ((case.tx.clamp(249, 2048) as usize) - 4).max(longest_list);
@@ -601,6 +613,13 @@ pub fn run_resp(case: &RespCase) -> CaseOut {
     {
         out.label("long_list");
     }
+    if !unencodable.is_empty() {
+        // what cannot be encoded is left out (whether the variation lists name it is not judged): everything else must be
+        // there, and every fragment has parsed
+        out.label("unencodable_attribute_defined");
+        got.retain(|d| matches!(d, Delivered::Value(s, v, _) if !unencodable.contains(&(*s, *v))));
+        expect.retain(|d| matches!(d, Delivered::Value(..)));
+    }
     if got != expect {
         let k = got
             .iter()
@@ -641,6 +660,9 @@ impl Prop for AttrResponses {
             3 => av_strategy(),
             1 => (100usize..=255).prop_map(|n| AV::VStr(vec![b'x'; n])),
             1 => (100usize..=255).prop_map(|n| AV::OStr(vec![0x5A; n])),
+            // longer than the one-octet length field of an attribute object can say: `define_attr` takes it, no response
+            // can carry it - it has to be left out cleanly
+            1 => prop_oneof![Just(256usize), 256usize..=300].prop_map(|n| AV::VStr(vec![b'y'; n])),
         ];
         let dense = prop_oneof![
             6 => Just(None),
